@@ -1,6 +1,7 @@
 package props
 
 import (
+	"fmt"
 	"go/ast"
 	"go/token"
 	"go/types"
@@ -29,6 +30,7 @@ var tokenizerFuncs = map[string]bool{
 func runC16(c *engine.Ctx, tier string) {
 	oneTokenizer(c)
 	escapeAgreement(c)
+	splitterAutomaton(c)
 	sortedKeys(c)
 	o := c.Custom("C16.4", "api-uniformity", "GetParentPath computes the parent through utils.SplitPath", "the parent of a path is that path without its last element, brackets respected")
 	var uses bool
@@ -273,4 +275,116 @@ func stripHash(s string) string {
 		return s[:i]
 	}
 	return s
+}
+
+// splitterAutomaton: the transition table of nextTokenIndex, evaluated per rune class and state.
+func splitterAutomaton(c *engine.Ctx) {
+	o := c.Custom("C16.5", "K-tables(splitter automaton)", "nextTokenIndex: '[' → inBrackets:=true; unescaped ']' → inBrackets:=false; '\\' toggles escape; '/' outside brackets and unescaped → token ends here; every other step clears escape; the state is two booleans",
+		"inside a key, '[' is literal for the renderer and the key parser: a splitter that nests brackets, or forgets an escape, cuts a path elsewhere than where the renderer joined it")
+	defer o.Done(1)
+	paths, err := c.A.PathsOpt(pkgUtils, engine.PathOpts{Roots: []string{"utils.nextTokenIndex"}, NoInline: true})
+	if err != nil {
+		o.Undecided("nextTokenIndex", err.Error())
+		return
+	}
+	cells := map[string]bool{}
+	for _, p := range paths {
+		for i := range p.Events {
+			le := &p.Events[i]
+			if le.Kind != engine.EvLoopEnter || le.Range != "$path" {
+				continue
+			}
+			class := "other"
+			var esc, notEsc, inBr, notInBr bool
+			writes := map[string]string{}
+			returned := ""
+			end := -1
+			for j := i + 1; j < len(p.Events); j++ {
+				ej := &p.Events[j]
+				if ej.Kind == engine.EvLoopExit && ej.Node == le.Node {
+					end = j
+					break
+				}
+				switch ej.Kind {
+				case engine.EvCond:
+					l := ej.Lit
+					if l.L == "elem($path)" && l.Mask == 2 {
+						class = l.R
+					}
+					if strings.HasPrefix(l.L, "?escape") && l.R == "true" {
+						esc, notEsc = esc || l.Mask == 2, notEsc || l.Mask == 5
+					}
+					if strings.HasPrefix(l.L, "?inBrackets") && l.R == "true" {
+						inBr, notInBr = inBr || l.Mask == 2, notInBr || l.Mask == 5
+					}
+				case engine.EvWrite:
+					if ej.Local != nil && ej.Loops == le.LoopID {
+						if !isBool(ej.Local.Type()) && ej.Local.Name() != "i" && ej.Local.Name() != "c" {
+							o.Eval(1)
+							o.Fail(&engine.Violation{Key: "nextTokenIndex|non-boolean state " + ej.Local.Name(), Pos: c.P.Pos(ej.Pos), Func: p.Root.Name(), Msg: "the splitter keeps non-boolean state (" + ej.Local.Name() + "): brackets do not nest inside a key"})
+							return
+						}
+						writes[ej.Local.Name()] = ej.RHS
+					}
+				case engine.EvReturn:
+					if len(ej.Results) == 1 {
+						returned = ej.Results[0]
+					}
+				}
+			}
+			if end == i+1 {
+				continue
+			}
+			delete(writes, "i")
+			delete(writes, "c")
+			o.Eval(1)
+			want := map[string]string{}
+			wantRet := ""
+			switch class {
+			case "'['":
+				want = map[string]string{"inBrackets": "true", "escape": "false"}
+			case "']'":
+				want = map[string]string{"escape": "false"}
+				if notEsc {
+					want["inBrackets"] = "false"
+				} else if !esc {
+					want = nil // the body did not test escape
+				}
+			case "'\\\\'":
+				want = map[string]string{"escape": "TOGGLE"}
+			case "'/'":
+				if notInBr && notEsc {
+					wantRet = "key($path)"
+					want = map[string]string{}
+				} else {
+					want = map[string]string{"escape": "false"}
+				}
+			default:
+				want = map[string]string{"escape": "false"}
+			}
+			ok := want != nil && len(want) == len(writes) && returned == wantRet
+			for k, v := range want {
+				got := writes[k]
+				if v == "TOGGLE" {
+					if !(strings.HasPrefix(got, "!") && strings.Contains(got, "escape")) {
+						ok = false
+					}
+				} else if got != v {
+					ok = false
+				}
+			}
+			cells[class] = true
+			if !ok {
+				o.Fail(&engine.Violation{Key: "nextTokenIndex|transition for " + class, Pos: c.P.Pos(le.Pos), Func: p.Root.Name(),
+					Msg: fmt.Sprintf("for rune %s (escape=%v/%v, inBrackets=%v/%v) the splitter does %v return %q; required %v return %q", class, esc, notEsc, inBr, notInBr, writes, returned, want, wantRet)})
+				return
+			}
+		}
+	}
+	for _, cl := range []string{"'['", "']'", "'/'", "other"} {
+		if !cells[cl] {
+			o.Undecided("nextTokenIndex|class "+cl, "anchor not found: the splitter has no transition for "+cl)
+		}
+	}
+	o.Site("nextTokenIndex: transition table evaluated for '[', ']', '\\', '/', other")
 }
